@@ -68,7 +68,7 @@ impl Continuous for Pareto {
         if x < self.minval {
             return 0.;
         }
-        self.alpha * self.minval.powf(self.alpha) / x.powf(self.alpha - 1.)
+        self.alpha * self.minval.powf(self.alpha) / x.powf(self.alpha + 1.)
     }
 }
 
